@@ -702,8 +702,74 @@ def prepare_config(chk, cfg, rng):
     return st
 
 
-def run_samples(chk, samples, name, lam=None):
-    """Send the samples' jobs to TLC and judge them. Returns {sample: ok}."""
+def build_controls(samples):
+    """Negative controls: corrupt one recorded field per kind (several candidates per kind). They travel in the same
+    TLC round as the real records; evaluated by eval_controls once the base samples are judged."""
+    ctl = []
+
+    def count(kind):
+        return sum(1 for c in ctl if c[1] == kind)
+    for s in samples:
+        if s.job is None or len(ctl) >= 14:
+            continue
+        gj = s.job["gates"]
+        rot = [x for x, g in enumerate(gj) if g["name"] in ("RZ", "RX", "RY", "CRY") and g["k"] % (s.cfg["M"] // 2)]
+        if rot and s.cfg["engine"] == "ring" and count("angle") < 4:
+            j = copy.deepcopy(s.job)
+            j["gates"][rot[0]]["k"] += 2
+            ctl.append((s, "angle", j))
+        xs = [x for x, g in enumerate(gj) if g["name"] == "X"]
+        if xs and s.cfg["engine"] == "cliff" and count("dropped-X") < 1:
+            j = copy.deepcopy(s.job)
+            del j["gates"][xs[0]]
+            ctl.append((s, "dropped-X", j))
+        if s.cfg["engine"] == "cliff" and count("non-clifford") < 1:
+            j = copy.deepcopy(s.job)
+            j["gates"].append({"name": "PHASE", "t": [0], "c": [], "k": 1})
+            j["words"], j["syms"], j["ops"] = j["words"][:1], [], []          # rejected by the premise: keep it cheap
+            ctl.append((s, "non-clifford", j))
+        if any(sy["hasclaim"] and sy["which"] == "N" for sy in s.job["syms"]) and count("claim") < 1 and s.cfg["engine"] == "ring":
+            j = copy.deepcopy(s.job)
+            for sy in j["syms"]:
+                if sy["hasclaim"] and sy["which"] == "N":
+                    sy["claim"] = ring_int(1 + to_complex(sy["claim"], s.cfg["M"]).real, s.cfg["M"])
+            ctl.append((s, "claim", j))
+        if s.job["defl"] and count("defl") < 3 and s.cfg["engine"] == "ring":
+            j = copy.deepcopy(s.job)
+            j["defl"][0] = copy.deepcopy(j["gates"])          # deflating with the state itself: overlap becomes 1
+            ctl.append((s, "defl", j))
+    for x, (s, what, j) in enumerate(ctl):
+        j["id"] = 10 ** 6 + x
+    return ctl
+
+
+def eval_controls(chk, ctl, verd, recs):
+    detail, used = {}, 0
+    for s, what, j in ctl:
+        # only controls whose base record was judged and matched are meaningful
+        if getattr(s, "Eexp", None) is None or abs(s.Eexp - s.E) > TOL:
+            continue
+        if what == "defl" and getattr(s, "ovsum", 1.0) > 0.9:
+            continue
+        M = s.cfg["M"]
+        used += 1
+        if verd[j["id"]] != "ok":
+            rej = True
+        else:
+            rec = recs[j["id"]]
+            E = (contract(s.hterms, rec["e"], 0, M) / to_complex(rec["nrm"], M)).real + DEFL_COEFF * sum(to_complex(o, M).real for o in rec["ov"])
+            rej = abs(E - s.E) > 1e-6
+        detail[what] = detail.get(what, 0) + (1 if rej else 0)
+    chk.part("negative_controls", corrupted=used, rejected=sum(detail.values()), kinds=detail)
+    if not all(detail.values()):      # one hit per kind (a rotation the energy is insensitive to proves nothing)
+        for key, det, _ in chk.violations[:20]:
+            print("  (violation recorded before the machinery failure) %s: %s" % (key, str(det)[:300]))
+        raise tlc.TLCError("binding failure: corrupted records accepted (%s)" % detail)
+
+
+def run_samples(chk, samples, name, lam=None, controls=False):
+    """Send the samples' jobs (and the negative controls derived from them) to TLC and judge them."""
+    import concurrent.futures as cf
     jobs, byid = {}, {}
     for s in samples:
         if s.job is None:
@@ -713,8 +779,12 @@ def run_samples(chk, samples, name, lam=None):
         s.job["id"] = jid
         jobs.setdefault(M, []).append(s.job)
         byid[jid] = s
+    ctl = build_controls(samples) if controls else []
+    for s, what, j in ctl:
+        jobs.setdefault(s.cfg["M"], []).append(j)
     verdicts, recs = {}, {}
-    for M, js in sorted(jobs.items()):
+
+    def one(M, js):
         # heavy jobs first so that the chunks are balanced: one job per chunk for big circuits
         js.sort(key=lambda j: -len(j["gates"]) * (len(j["words"]) + 8))
         chunks = max(1, min(len(js), PAR))
@@ -722,86 +792,31 @@ def run_samples(chk, samples, name, lam=None):
         for x, j in enumerate(js):
             order[x % chunks].append(j)
         flat = [j for ch in order for j in ch]
-        vd, results = tlc.judge("C08Trace", flat, WD + "/%s_M%d" % (name, M), {"M": M}, max_parallel=PAR, timeout=7200,
-                                chunk=max(1, (len(flat) + chunks - 1) // chunks))
-        verdicts.update(vd)
-        for r in results:
-            chk.add_tlc(r)
-            for rec in r.prints("R"):
-                recs[rec["id"]] = rec
+        return tlc.judge("C08Trace", flat, WD + "/%s_M%d" % (name, M), {"M": M}, max_parallel=PAR, timeout=7200,
+                         chunk=max(1, (len(flat) + chunks - 1) // chunks))
+    with cf.ThreadPoolExecutor(max_workers=max(1, len(jobs))) as ex:          # the grids (M) are independent TLC batches
+        futs = [ex.submit(one, M, js) for M, js in sorted(jobs.items())]
+        for f in futs:
+            vd, results = f.result()
+            verdicts.update(vd)
+            for r in results:
+                chk.add_tlc(r)
+                for rec in r.prints("R"):
+                    recs[rec["id"]] = rec
     res = {}
     for jid, s in byid.items():
         res[s] = judge_sample(chk, s, verdicts[jid], recs.get(jid), lam(s) if lam else None)
         chk.add_traces(1, "V_" + s.cfg["engine"])
+    if ctl:
+        eval_controls(chk, ctl, verdicts, recs)
     return res
 
 
-def negative_controls(chk, samples):
-    """Corrupt one recorded field per kind: the exact values must change / the premise must reject (binding)."""
-    ctl = []
-    for s in samples:
-        if s.job is None or len(ctl) >= 12:
-            continue
-        gj = s.job["gates"]
-        rot = [x for x, g in enumerate(gj) if g["name"] in ("RZ", "RX", "RY", "CRY") and g["k"] % (s.cfg["M"] // 2)]
-        if rot and s.cfg["engine"] == "ring" and sum(1 for c in ctl if c[1] == "angle") < 4:
-            j = copy.deepcopy(s.job)
-            j["gates"][rot[0]]["k"] += 2
-            ctl.append((s, "angle", j))
-        xs = [x for x, g in enumerate(gj) if g["name"] == "X"]
-        if xs and s.cfg["engine"] == "cliff" and not any(c[1] == "dropped-X" for c in ctl):
-            j = copy.deepcopy(s.job)
-            del j["gates"][xs[0]]
-            ctl.append((s, "dropped-X", j))
-        if s.cfg["engine"] == "cliff" and not any(c[1] == "non-clifford" for c in ctl):
-            j = copy.deepcopy(s.job)
-            j["gates"].append({"name": "PHASE", "t": [0], "c": [], "k": 1})
-            ctl.append((s, "non-clifford", j))
-        if any(sy["hasclaim"] for sy in s.job["syms"]) and not any(c[1] == "claim" for c in ctl):
-            j = copy.deepcopy(s.job)
-            for sy in j["syms"]:
-                if sy["hasclaim"] and sy["which"] == "N":
-                    sy["claim"] = ring_int(1 + to_complex(sy["claim"], s.cfg["M"]).real, s.cfg["M"])
-            ctl.append((s, "claim", j))
-        if s.job["defl"] and not any(c[1] == "defl" for c in ctl) and getattr(s, "ovsum", 1.0) < 0.9:
-            j = copy.deepcopy(s.job)
-            j["defl"][0] = copy.deepcopy(j["gates"])          # deflating with the state itself: overlap becomes 1
-            ctl.append((s, "defl", j))
-    if not ctl:
-        return
-    rejected = 0
-    byM = {}
-    for x, (s, what, j) in enumerate(ctl):
-        j["id"] = 10 ** 6 + x
-        byM.setdefault(s.cfg["M"], []).append(j)
-    verd, recs = {}, {}
-    for M, js in byM.items():
-        vd, results = tlc.judge("C08Trace", js, WD + "/neg_M%d" % M, {"M": M}, max_parallel=PAR)
-        verd.update(vd)
-        for r in results:
-            for rec in r.prints("R"):
-                recs[rec["id"]] = rec
-    detail = {}
-    for x, (s, what, j) in enumerate(ctl):
-        jid = 10 ** 6 + x
-        M = s.cfg["M"]
-        if verd[jid] != "ok":
-            rej = True
-        else:
-            rec = recs[jid]
-            E = (contract(s.hterms, rec["e"], 0, M) / to_complex(rec["nrm"], M)).real + DEFL_COEFF * sum(to_complex(o, M).real for o in rec["ov"])
-            rej = abs(E - s.E) > 1e-6
-        detail[what] = detail.get(what, 0) + (1 if rej else 0)
-        rejected += 1 if rej else 0
-    chk.part("negative_controls", corrupted=len(ctl), rejected=rejected, kinds=detail)
-    if not all(detail.values()):      # one hit per kind (a rotation the energy is insensitive to proves nothing)
-        for key, det, _ in chk.violations[:20]:
-            print("  (violation recorded before the machinery failure) %s: %s" % (key, str(det)[:300]))
-        raise tlc.TLCError("binding failure: corrupted records accepted (%s)" % detail)
-
-
 def check_simulate(chk, cfg, st, table):
-    """simulate() once with a trivial optimiser: optimal_energy = E(optimal_var_params) on the rebuilt optimal_circuit."""
+    """simulate() once with a trivial optimiser: optimal_energy = E(optimal_var_params) on the rebuilt optimal_circuit.
+    Phase 1 (before TLC): drive the solver, snapshot the rebuilt optimal_circuit as one more TLC job.
+    `table` maps theta index -> exact energy, or -> True when the exact value is not known yet (then the scalar
+    comparisons are deferred: the returned sample carries `finish(table)`)."""
     tsel = [t for t in range(1, len(st.thetas)) if table.get(t) is not None]
     if not tsel or cfg["meas"]:
         return None
@@ -826,22 +841,31 @@ def check_simulate(chk, cfg, st, table):
     except Exception as e:
         chk.violation("simulate:exception:%s:%s" % (cfg["ansatz"], type(e).__name__), "%s: %s" % (type(e).__name__, e), case)
         return None
-    Eexp = table[t]
-    bad = []
-    if abs(Eopt - Eexp) > TOL or abs(float(np.real(v2.optimal_energy)) - Eexp) > TOL:
-        bad.append("optimal_energy=%.10f, exact E(theta_opt)=%.10f" % (Eopt, Eexp))
-    if not np.allclose(np.array(v2.optimal_var_params, dtype=float), h.x, atol=1e-12):
-        bad.append("optimal_var_params differ from the optimiser's result")
+    Eopt_attr = float(np.real(v2.optimal_energy))
+    params_ok = np.allclose(np.array(v2.optimal_var_params, dtype=float), h.x, atol=1e-12)
     try:
         E2 = float(np.real(v2.energy_estimation(v2.optimal_var_params)))
-        if abs(E2 - Eexp) > TOL:
-            bad.append("energy_estimation(optimal_var_params)=%.10f" % E2)
     except Exception as e:
-        bad.append("energy_estimation(optimal_var_params) raised %s" % type(e).__name__)
-    if bad:
-        chk.violation("simulate:%s:%s" % (cfg["ansatz"], cfg["mapping"]), "; ".join(bad), case)
+        E2 = "raised %s" % type(e).__name__
+
+    def finish(tab):
+        Eexp = tab.get(t)
+        if Eexp is None or Eexp is True:
+            return
+        bad = []
+        if abs(Eopt - Eexp) > TOL or abs(Eopt_attr - Eexp) > TOL:
+            bad.append("optimal_energy=%.10f, exact E(theta_opt)=%.10f" % (Eopt, Eexp))
+        if not params_ok:
+            bad.append("optimal_var_params differ from the optimiser's result")
+        if isinstance(E2, str):
+            bad.append("energy_estimation(optimal_var_params) " + E2)
+        elif abs(E2 - Eexp) > TOL:
+            bad.append("energy_estimation(optimal_var_params)=%.10f" % E2)
+        if bad:
+            chk.violation("simulate:%s:%s" % (cfg["ansatz"], cfg["mapping"]), "; ".join(bad), case)
     # the rebuilt optimal_circuit is judged by TLC like any other recorded circuit
     s = Sample()
+    s.finish = finish
     s.cfg, s.theta, s.case = cfg, case["theta"], dict(case, optimal_circuit=True)
     s.sym, s.symterms, s.symidx, s.opidx = {}, {}, {}, {}
     s.symdefault = {}
@@ -858,6 +882,8 @@ def check_simulate(chk, cfg, st, table):
                  "ops": [], "syms": [], "defl": defl}
     except OffGrid:
         chk.inconclusive += 1
+    if not any(v is True for v in table.values()):
+        finish(table)
     return s
 
 
@@ -881,23 +907,23 @@ def v_part(chk, cfgs, rng, name="v"):
             st.samples.append(s)
             samples.append(s)
         states.append(st)
+    # simulate(): driven now, its rebuilt optimal_circuit travels in the same TLC round; scalars judged afterwards
+    sims = []
+    for st in states:
+        pending = {t: (True if s.job is not None else None) for t, s in enumerate(st.samples)}
+        s2 = check_simulate(chk, st.cfg, st, pending)
+        if s2 is not None:
+            sims.append((st, s2))
     _TIMES["V_drive_python"] = round(time.time() - t0, 1)
     t0 = time.time()
     lam_of = {id(s): st.lam for st in states for s in st.samples}
-    res = run_samples(chk, samples, name, lam=lambda s: lam_of.get(id(s)))
+    res = run_samples(chk, samples + [s2 for _, s2 in sims if s2.job is not None], name, lam=lambda s: lam_of.get(id(s)),
+                      controls="neg" not in os.environ.get("VERIF_C08_SKIP", "").split(","))
     _TIMES["V_tlc"] = round(time.time() - t0, 1)
-    t0 = time.time()
-    # simulate(): needs the exact energies -> second, small round
-    sims = []
     for st in states:
-        table = {t: getattr(s, "Eexp", None) for t, s in enumerate(st.samples)}
-        st.table = table
-        s2 = check_simulate(chk, st.cfg, st, table)
-        if s2 is not None and s2.job is not None:
-            sims.append(s2)
-    if sims:
-        run_samples(chk, sims, name + "_sim")
-    _TIMES["V_simulate"] = round(time.time() - t0, 1)
+        st.table = {t: getattr(s, "Eexp", None) for t, s in enumerate(st.samples)}
+    for st, s2 in sims:
+        s2.finish(st.table)
     return states, samples
 
 
@@ -1020,7 +1046,7 @@ def g_part(chk, st, hists, tag):
     replayed = 0
     since = []
     for h in hists:
-        if v is None or n_since >= 25:
+        if v is None or n_since >= 60:
             v = make_solver(cfg, holder)
             H0 = dict(v.qubit_hamiltonian.terms)
             state = {"cur": None, "opt": None, "optcirc": None}
@@ -1074,9 +1100,7 @@ def run(chk):
     states, samples = v_part(chk, cfgs, rng)
     t_v = time.time() - t0
     t0 = time.time()
-    if "neg" not in skip:
-        negative_controls(chk, [s for s in samples if s.job is not None and getattr(s, "Eexp", None) is not None
-                                and abs(s.Eexp - s.E) < TOL])
+    # (negative controls travel in the same TLC round as the records: build_controls / eval_controls)
     # ---- G ----------------------------------------------------------------------------------------------
     t_neg = time.time() - t0
     t0 = time.time()
@@ -1093,7 +1117,8 @@ def run(chk):
                 g_part(chk, st, hq, "bfs_qham")
                 continue
             # depth-3 enumeration is replayed on the cheapest configurations only
-            g_part(chk, st, hs if (quick or st.n <= 2) else gen_histories_cached(chk, 2, 2), "bfs")
+            if not (quick and st.cfg["ansatz"] == "HEA"):        # quick: the HEA configuration gets the random long histories only
+                g_part(chk, st, hs if (quick or st.n <= 2) else gen_histories_cached(chk, 2, 2), "bfs")
             g_part(chk, st, hs_long, "sim")
     chk.part("wall_s", V=round(t_v, 1), negative_controls=round(t_neg, 1), G=round(time.time() - t0, 1), **_TIMES)
     nE = sum(1 for s in samples if getattr(s, "Eexp", None) is not None)
